@@ -14,11 +14,14 @@ package main
 import (
 	"fmt"
 	"math/rand"
+	"os"
+	"path/filepath"
 	"sort"
 	"strings"
 	"sync"
 	"time"
 
+	"github.com/fatedier/frp/pkg/config"
 	v1 "github.com/fatedier/frp/pkg/config/v1"
 	"github.com/fatedier/frp/pkg/util/wait"
 )
@@ -305,6 +308,48 @@ func witnessCase() (string, []int) {
 	return fmt.Sprintf("CBackoff %s [%s]", os.coq(), strings.Join(calls, "; ")), counts
 }
 
+// the same heartbeat settings given as a LEGACY INI file and as TOML, through the real loaders
+// (config.LoadServerConfig / LoadClientConfig: detection, legacy conversion, Complete): explicitly set values must
+// arrive unchanged.  Emitted as CDefaults cases (explicit non-zero values: the model's defaulting is the identity).
+func fileDefaultsCases(r *rand.Rand, dir string, k int) ([]string, error) {
+	// the legacy parser refuses heartbeat_timeout < heartbeat_interval
+	pairs := [][2]int64{{1, 3}, {30, 90}, {3, 120}, {-1, -1}, {-5, -1}, {30, 120}, {1, 1}, {-1, 3}, {2, 2}}
+	mux := r.Intn(2) == 0
+	pr := pairs[r.Intn(len(pairs))]
+	i, t := pr[0], pr[1]
+	out := []string{}
+	for _, legacy := range []bool{true, false} {
+		var sTxt, cTxt string
+		if legacy {
+			sTxt = fmt.Sprintf("[common]\nbind_port = 7000\ntcp_mux = %v\nheartbeat_timeout = %d\n", mux, t)
+			cTxt = fmt.Sprintf("[common]\nserver_addr = 127.0.0.1\nserver_port = 7000\ntcp_mux = %v\nheartbeat_interval = %d\nheartbeat_timeout = %d\n", mux, i, t)
+		} else {
+			sTxt = fmt.Sprintf("bindPort = 7000\ntransport.tcpMux = %v\ntransport.heartbeatTimeout = %d\n", mux, t)
+			cTxt = fmt.Sprintf("serverAddr = \"127.0.0.1\"\nserverPort = 7000\ntransport.tcpMux = %v\ntransport.heartbeatInterval = %d\ntransport.heartbeatTimeout = %d\n", mux, i, t)
+		}
+		ext := map[bool]string{true: "ini", false: "toml"}[legacy]
+		sp := filepath.Join(dir, fmt.Sprintf("frps_%d.%s", k, ext))
+		cp := filepath.Join(dir, fmt.Sprintf("frpc_%d.%s", k, ext))
+		if err := os.WriteFile(sp, []byte(sTxt), 0o600); err != nil {
+			return nil, err
+		}
+		if err := os.WriteFile(cp, []byte(cTxt), 0o600); err != nil {
+			return nil, err
+		}
+		sc, isLegacy, err := config.LoadServerConfig(sp, true)
+		if err != nil || isLegacy != legacy {
+			return nil, fmt.Errorf("LoadServerConfig(%s): %v legacy=%v", sp, err, isLegacy)
+		}
+		cc, _, _, isLegacy, err := config.LoadClientConfig(cp, true)
+		if err != nil || isLegacy != legacy {
+			return nil, fmt.Errorf("LoadClientConfig(%s): %v legacy=%v", cp, err, isLegacy)
+		}
+		out = append(out, fmt.Sprintf("CDefaults %s %s %s %s %s %s", coqBool(mux), coqZ(i), coqZ(t), coqZ(sc.Transport.HeartbeatTimeout),
+			coqZ(cc.Transport.HeartbeatInterval), coqZ(cc.Transport.HeartbeatTimeout)))
+	}
+	return out, nil
+}
+
 func runBackoff(cfg *runCfg) error {
 	r := rand.New(rand.NewSource(cfg.Seed))
 	dist := map[string]int{}
@@ -366,6 +411,19 @@ func runBackoff(cfg *runCfg) error {
 		}
 		cases = append(cases, c)
 		dist["defaults"]++
+	}
+	tmp, err := os.MkdirTemp("", "c14cfg")
+	if err != nil {
+		return err
+	}
+	defer os.RemoveAll(tmp)
+	for k := 0; k < 8; k++ {
+		cs, err := fileDefaultsCases(r, tmp, k)
+		if err != nil {
+			return err
+		}
+		cases = append(cases, cs...)
+		dist["defaults_from_ini_and_toml_files"] += len(cs)
 	}
 	cf := &caseFile{Imports: corrImports, Typ: "case", Cases: cases,
 		Tail: "Definition M := Eval vm_compute in mismatches check_case cases.\nPrint M.\n" +
